@@ -21,13 +21,13 @@ type C08Case struct {
 	Cfg        gen.Config `json:"cfg"`
 	Data       gen.Recipe `json:"data"`
 	WriteSizes []int      `json:"write_sizes,omitempty"`
-	Side       string     `json:"side"`   // "sink-write", "sink-close", "source-read"
-	K          int        `json:"k"`      // 1-based index of the failing underlying call; <= 0: sweep over all k
+	Side       string     `json:"side"`         // "sink-write", "sink-close", "source-read"
+	K          int        `json:"k"`            // 1-based index of the failing underlying call; <= 0: sweep over all k
 	K2         int        `json:"k2,omitempty"` // second failing call (pairs)
 	Sticky     bool       `json:"sticky,omitempty"`
-	Prefix     int        `json:"prefix,omitempty"` // bytes a failing sink write still accepts
+	Prefix     int        `json:"prefix,omitempty"`    // bytes a failing sink write still accepts
 	WithData   bool       `json:"with_data,omitempty"` // failing source read returns (n>0, err)
-	After      string     `json:"after"`  // caller model after an error: stop, close, close2, write-close
+	After      string     `json:"after"`               // caller model after an error: stop, close, close2, write-close
 	ReadJobs   uint       `json:"read_jobs"`
 	ReadBuf    int        `json:"read_buf,omitempty"`
 	// BufSize > 0: Writer and Reader are built on default bitstreams with this buffer size (through
@@ -67,9 +67,9 @@ func c08NewReader(src *fio.Source, c C08Case) (*kio.Reader, error) {
 }
 
 type c08Pre struct {
-	data, stream         []byte
+	data, stream           []byte
 	sinkWrites, sinkCloses int
-	srcReads             int
+	srcReads               int
 }
 
 func c08Prepare(c C08Case) (*c08Pre, string) {
@@ -303,7 +303,7 @@ func c08Sweep(r *vrt.Run, c C08Case) (string, C08Case) {
 func drawC08(t *rapid.T) C08Case {
 	var c C08Case
 	c.Cfg = gen.Config{Transform: rapid.SampledFrom([]string{"NONE", "LZ", "RLT", "TEXT", "BWT", "ROLZ"}).Draw(t, "tr"),
-		Entropy: rapid.SampledFrom([]string{"NONE", "HUFFMAN", "ANS0", "FPAQ", "RANGE"}).Draw(t, "en"),
+		Entropy:   rapid.SampledFrom([]string{"NONE", "HUFFMAN", "ANS0", "FPAQ", "RANGE"}).Draw(t, "en"),
 		BlockSize: uint(rapid.SampledFrom([]int{1024, 4096, 65536, 262144}).Draw(t, "bs")), Jobs: uint(rapid.IntRange(1, 4).Draw(t, "jobs")),
 		Checksum: rapid.SampledFrom([]uint{0, 32}).Draw(t, "ck"), HintClass: "absent"}
 	// sizes chosen so that the 256 KiB bitstream buffers are flushed / refilled several times
